@@ -292,3 +292,7 @@ B("C17", TF, "        return self.a * x + self.b\n", "        return self.a * x 
 B("C18", CU, "    if len(radiuses) == 1:\n        radiuses = np.tile(radiuses, 2)", "    if len(radiuses) == 1:\n        return lambda loc: radiuses[0] * np.ones_like(loc)", "R-C18-closure")
 B("C18", BASE, "    def _childviews(self) -> List[str]:", "    def __getstate__(self):\n        state = self.__dict__.copy()\n        state.pop('jaxnodes', None)\n        return state\n\n    def _childviews(self) -> List[str]:", "R-C18-protocol")
 P("C18", BASE, "    def _childviews(self) -> List[str]:", "    def __getstate__(self):\n        return self.__dict__\n\n    def __setstate__(self, state):\n        self.__dict__.update(state)\n\n    def _childviews(self) -> List[str]:")
+# F10 (repaired): shared parameter columns / current names survive delete_channel
+B("C19", BASE, "                self.base.nodes.loc[rows[~in_use], col] = float(\"nan\")", "                self.base.nodes.loc[rows, col] = float(\"nan\")", "R-C19-undo")
+B("C19", BASE, "                self.base.nodes.drop(columns=unshared_cols + [name], inplace=True)", "                self.base.nodes.drop(columns=channel_cols + [name], inplace=True)", "R-C19-undo")
+B("C19", BASE, "                if channel.current_name not in [c.current_name for c in others]:\n                    self.base.membrane_current_names.remove(channel.current_name)", "                self.base.membrane_current_names.remove(channel.current_name)", "R-C19-undo")
